@@ -6,7 +6,8 @@ EXPLAIN = ('operators contract: (R1) the forwarded invoke is must-guarded by req
            'parameters 2,3,4 unchanged, is the trapping variant, happens exactly once on every success path and its result '
            'is the Ok payload unchanged; (R3) Operators(_) is set only in add_operator under owner auth and an absence '
            'guard on the same key, removed only in remove_operator under owner auth and a presence guard; '
-           'is_operator returns presence of Operators(account).')
+           'is_operator returns presence of Operators(account); who-may-forward: every call the contract makes to another contract, in any entry, '
+           'is behind require_auth(A) and Operators(A) present for one address A.')
 NOT_DECIDED = 'behaviour of the target contract; host rollback on a trapping target (T1).'
 ASSUME = ['T1', 'T2', 'T3', 'T6']
 CN = 'axelar_operators'
